@@ -85,18 +85,19 @@ Proof. rewrite do_clean_eq. apply clean_fold_workers. Qed.
 
 Section ByOps.
 Variable mx : Z.
+Variable kp : Z.
 
 Definition stop_okB (b : bytrk) (acc : list ev) (res : pw * stopres * list ev) : Prop :=
   let '(x', r, acc') := res in exists evs, acc' = acc ++ evs /\ BI (pw_workers x') (fold_left by_ev evs b).
 
 Lemma stop_loop_B : forall f tnt x t b dl acc,
-  Jop mx tnt x t -> quiet_off t -> p_state (get_pool x 0) = PStopping -> dl <= U64MAX -> BI (pw_workers x) b -> BR t b ->
+  Jop mx kp tnt x t -> quiet_off t -> p_state (get_pool x 0) = PStopping -> dl <= U64MAX -> BI (pw_workers x) b -> BR t b ->
   stop_okB b acc (stop_loop f x 0 dl acc).
 Proof.
   induction f as [|f IH]; intros tnt x t b dl acc HJop Hq Hst Hdl HB HR.
   - cbn [stop_loop stop_okB]. exists []. rewrite app_nil_r. auto.
-  - rewrite stop_loop_S. pose proof (ppass_J mx tnt x t dl HJop Hq) as Hok.
-    pose proof (ppass_B mx tnt x t b dl HJop Hq HB HR) as HokB.
+  - rewrite stop_loop_S. pose proof (ppass_J mx kp tnt x t dl HJop Hq) as Hok.
+    pose proof (ppass_B mx kp tnt x t b dl HJop Hq HB HR) as HokB.
     pose proof (PoolMono.ppass_same_states x 0 dl 0%nat) as Hss. rewrite Hst in Hss.
     destruct (ppass x 0 dl) as [[x1 r] e]. cbn [fst snd ppass_ok ppass_okB] in *.
     destruct r as [l| | | |]; try contradiction.
@@ -105,8 +106,8 @@ Proof.
       * destruct (0 <? p_running (get_pool x1 0)) eqn:Erun.
         -- cbn [stop_okB]. exists e. auto.
         -- cbn [stop_okB]. exists e. split; [reflexivity|]. rewrite do_clean_workers. exact HokB.
-      * assert (Jop mx tnt (set_clockp x1 (sat_add64 (pw_clock x1) 1000000)) (fold_left pev e t)) as HJ2.
-        { destruct HJ1 as [HJ1 Hts1]. pose proof (jp_clock _ _ _ (j_p _ _ _ _ _ _ _ HJ1)) as Hc.
+      * assert (Jop mx kp tnt (set_clockp x1 (sat_add64 (pw_clock x1) 1000000)) (fold_left pev e t)) as HJ2.
+        { destruct HJ1 as [HJ1 Hts1]. pose proof (jp_clock _ _ _ _ (j_p _ _ _ _ _ _ _ _ HJ1)) as Hc.
           destruct (sat_add64_mono (pw_clock x1) 1000000 Hc ltac:(lia)) as [M1 M2].
           split; [|autorewrite with pw; exact Hts1]. autorewrite with pw. apply J_nap; assumption. }
         pose proof (IH tnt _ (fold_left pev e t) (fold_left by_ev e b) dl (acc ++ e) HJ2 (quiet_off_fold _ _ Hq)
@@ -114,20 +115,21 @@ Proof.
         destruct (stop_loop f _ 0 dl (acc ++ e)) as [[x' r'] acc']. cbn [stop_okB] in *.
         destruct IH1 as (evs & -> & H). exists (e ++ evs). rewrite app_assoc, fold_left_app. auto.
     + destruct Hok as (-> & -> & Hs). congruence.
+    + cbn [stop_okB]. exists e. auto.
 Qed.
 
 Lemma op_B tnt x t b o :
-  Jop mx tnt x t -> op_ok x o = true -> BI (pw_workers x) b -> BR t b ->
+  Jop mx kp tnt x t -> op_ok x o = true -> BI (pw_workers x) b -> BR t b ->
   BI (pw_workers (fst (pstep x o))) (by_step b o (snd (pstep x o))).
 Proof.
   intros HJop Hok HB HR. destruct o as [p body prio|p dl|p i|p i|p i|i|p dur|p|p|p|c]; cbn [op_ok] in Hok;
     try (apply andb_true_iff in Hok as [Hp Hok]); try (apply Nat.eqb_eq in Hp; subst p); try (apply Nat.eqb_eq in Hok; subst p).
   - cbn [pstep]. destruct (p_state (get_pool x 0)); exact HB.
   - cbn [pstep]. destruct HJop as [HJ Hts].
-    pose proof (ppass_J mx tnt x (unquiet t) dl (conj (J_unquiet mx tnt x _ None t HJ) Hts) (unquiet_quiet_off t)) as Hok1.
-    pose proof (ppass_B mx tnt x (unquiet t) b dl (conj (J_unquiet mx tnt x _ None t HJ) Hts) (unquiet_quiet_off t) HB HR) as HokB.
+    pose proof (ppass_J mx kp tnt x (unquiet t) dl (conj (J_unquiet mx kp tnt x _ None t HJ) Hts) (unquiet_quiet_off t)) as Hok1.
+    pose proof (ppass_B mx kp tnt x (unquiet t) b dl (conj (J_unquiet mx kp tnt x _ None t HJ) Hts) (unquiet_quiet_off t) HB HR) as HokB.
     destruct (ppass x 0 dl) as [[x' r] e]. cbn [fst snd by_step pevs ppass_ok ppass_okB] in *.
-    destruct r; try contradiction; exact HokB.
+    exact HokB.
   - cbn [pstep]. pose proof (pwait_workers x 0 i) as H. destruct (pwait x 0 i) as [x' r]. cbn [fst snd by_step pevs fold_left] in *. rewrite H. exact HB.
   - cbn [pstep]. pose proof (take_workers x 0 i) as H. destruct (take x 0 i) as [x' [r|]]; cbn [fst snd by_step pevs fold_left] in *; rewrite H; exact HB.
   - cbn [pstep fst snd by_step pevs fold_left]. rewrite pclean_workers. exact HB.
@@ -139,11 +141,11 @@ Proof.
                (by_step b (PStop 0 dur) (snd (let '(x', r, e) := stop_loop (S (S (Z.to_nat (dur / 1000000)))) (upd_pool x 0 (p_with_state PStopping)) 0
                                        (get_timeout_time (pw_clock (upd_pool x 0 (p_with_state PStopping))) dur) [] in (x', OStop r e))))) as Hlive.
     { intro Hne. set (x1 := upd_pool x 0 (p_with_state PStopping)).
-      pose proof (Jop_stop_ts mx tnt x t HJop Hne) as HJ1. fold x1 in HJ1.
+      pose proof (Jop_stop_ts mx kp tnt x t HJop Hne) as HJ1. fold x1 in HJ1.
       assert (p_state (get_pool x1 0) = PStopping) as Hst1.
-      { unfold x1. destruct HJop as [HJ _]. rewrite get_pool_upd_pool_same by (rewrite (jp_pools _ _ _ (j_p _ _ _ _ _ _ _ HJ)); lia). reflexivity. }
+      { unfold x1. destruct HJop as [HJ _]. rewrite get_pool_upd_pool_same by (rewrite (jp_pools _ _ _ _ (j_p _ _ _ _ _ _ _ _ HJ)); lia). reflexivity. }
       assert (quiet_off (stop_ts t)) as Hq1.
-      { unfold quiet_off. destruct HJop as [HJ _]. rewrite (stop_ts_pools t (js_pools _ _ _ _ _ (j_s _ _ _ _ _ _ _ HJ))). cbn [nth].
+      { unfold quiet_off. destruct HJop as [HJ _]. rewrite (stop_ts_pools t (js_pools _ _ _ _ _ (j_s _ _ _ _ _ _ _ _ HJ))). cbn [nth].
         apply (stop_ks_fields t). }
       assert (get_timeout_time (pw_clock x1) dur <= U64MAX) as Hdl.
       { unfold get_timeout_time, sat_add64. destruct (dur <=? U64MAX); lia. }
@@ -162,13 +164,13 @@ Lemma by_run_nil b ops : by_run b ops [] = b.
 Proof. destruct ops; reflexivity. Qed.
 
 Lemma run_B : forall ops x t tnt b,
-  Jop mx tnt x t -> hist_okp x ops = true -> BI (pw_workers x) b -> BR t b ->
+  Jop mx kp tnt x t -> hist_okp x ops = true -> BI (pw_workers x) b -> BR t b ->
   by_ok (by_run b ops (cut_div (prun x ops))) = true.
 Proof.
   induction ops as [|o r IH]; intros x t tnt b HJ Hok HB HR.
   - cbn [prun cut_div by_run]. apply (bi_ok _ _ HB).
   - cbn [hist_okp] in Hok. apply andb_true_iff in Hok as [Hok1 Hok2].
-    pose proof (op_step mx tnt x t o HJ Hok1) as Hstep. cbv zeta in Hstep.
+    pose proof (op_step mx kp tnt x t o HJ Hok1) as Hstep. cbv zeta in Hstep.
     pose proof (op_B tnt x t b o HJ Hok1 HB HR) as HB'.
     pose proof (BR_step mx t b o (snd (pstep x o)) HR) as HR'.
     rewrite prun_cons, cut_div_cons.
